@@ -59,8 +59,10 @@ Record inp := mkinp { i_kind : kind; i_cfg : cfg; i_ups : list (nat * text) }.
 Record obs := mkobs' { o_segs : list text; o_lines : list text; o_count : nat;
                        (* KSelect: writer handed out (0 live, 1 buffered, 2 null), IsPipedOutput and
                           color.Enabled as the child process sees them *)
-                       o_writer : nat; o_piped : bool; o_color : bool }.
-Definition mkobs (segs lines : list text) (count : nat) : obs := mkobs' segs lines count 0 false false.
+                       o_writer : nat; o_piped : bool; o_color : bool;
+                       (* KSelect: multiterm.AutoTrim and TermCols() in the child *)
+                       o_trim : bool; o_cols : Z }.
+Definition mkobs (segs lines : list text) (count : nat) : obs := mkobs' segs lines count 0 false false false 0%Z.
 
 Definition mk (k : kind) (tr : bool) (cols : Z) (ups : list (N * string)) : inp :=
   mkinp k (mkcfg tr cols) (map (fun u => (N.to_nat (fst u), dec (snd u))) ups).
@@ -79,13 +81,20 @@ Definition cP (k : N) (size : N) (tr : bool) (cols : Z) (ups : list (N * string)
 
 Definition okind (n : N) : outkind :=
   match n with 0%N => OTerminal | 1%N => OCharDev | 2%N => OPipe | 3%N => OSocket | 4%N => ORegular | _ => OOther end.
-(* cS kind snapshot noout | AutoTrim and width as the child reports them | history | bytes that
-   arrived on the child's stdout | writer, IsPipedOutput, color.Enabled *)
-Definition cS (k : N) (snap noout : bool) (tr : bool) (cols : Z) (ups : list (N * string)) (out : string)
-              (w : N) (piped color : bool) : inp * option obs :=
-  (mk (KSelect (okind k) snap noout) tr cols ups, Some (mkobs' [dec out] [] 0 (N.to_nat w) piped color)).
-Definition cSP (k : N) (snap noout : bool) (tr : bool) (cols : Z) (ups : list (N * string)) : inp * option obs :=
-  (mk (KSelect (okind k) snap noout) tr cols ups, None).
+(* cS kind snapshot noout | window width of the pty (ignored otherwise), COLUMNS and LINES in the
+   child's environment (None = unset) | history | bytes that arrived on the child's stdout |
+   writer, IsPipedOutput, color.Enabled, AutoTrim, TermCols() as the child reports them.
+   The configuration the model works with comes from the INPUT (kind of stdout, window size,
+   environment), never from the report. *)
+Definition oenv (ec el : option string) : env := mkenv (option_map dec ec) (option_map dec el).
+Definition mkS (k : N) (snap noout : bool) (win : Z) (ec el : option string) (ups : list (N * string)) : inp :=
+  let c := default_cfg (okind k) win (oenv ec el) in
+  mk (KSelect (okind k) snap noout) (autotrim c) (cols c) ups.
+Definition cS (k : N) (snap noout : bool) (win : Z) (ec el : option string) (ups : list (N * string)) (out : string)
+              (w : N) (piped color tr : bool) (cols : Z) : inp * option obs :=
+  (mkS k snap noout win ec el ups, Some (mkobs' [dec out] [] 0 (N.to_nat w) piped color tr cols)).
+Definition cSP (k : N) (snap noout : bool) (win : Z) (ec el : option string) (ups : list (N * string)) : inp * option obs :=
+  (mkS k snap noout win ec el ups, None).
 
 Definition writer_code (w : writer) : nat := match w with WLive => 0 | WBuffered => 1 | WNull => 2 end.
 
@@ -109,7 +118,7 @@ Definition model (i : inp) : option obs :=
       let w := select_from_args noout false snap k in
       let out := match session_output c w (i_ups i) with Ok o => Some o | Panic => None end in
       match out with
-      | Some out => Some (mkobs' [out] [] 0 (writer_code w) (is_piped_output k) (color_default k))
+      | Some out => Some (mkobs' [out] [] 0 (writer_code w) (is_piped_output k) (color_default k) (autotrim c) (cols c))
       | None => None
       end
   end.
@@ -138,6 +147,7 @@ Definition obs_eqb (i : inp) (a b : obs) : bool :=
        && screens_eq (tc_of (i_cfg i) false true) (scr0, Ground) (scr0, Ground) (o_segs a) (o_segs b)
        && screens_eq (tc_of (i_cfg i) true true) (scr0, Ground) (scr0, Ground) (o_segs a) (o_segs b))%bool
   | KSelect k snap noout =>
+      Bool.eqb (o_trim a) (o_trim b) && Z.eqb (o_cols a) (o_cols b) &&
       match k with
       | OCharDev =>
           (* a character device that is not a terminal (/dev/null): the bytes are discarded and the
